@@ -8,9 +8,14 @@ proof:          lean/OdfModel/Props/C17.lean (roundtrip, roundtrip_append, no_ra
 correspondence: node list appended by odf.teletype.addTextToElement  vs  `enc [] s` (drv_teletype)
 oracle:         extractText(addTextToElement(s)) == s directly, appended to a pre-filled element,
                 and after save()+load(); node predicate (no TAB/LF/double blank in text nodes)
+big parts:      strings of 2-, 3- and 4-byte UTF-8 characters only (loadcommon.straddle_text), ~140 KB, with white space before
+                and behind, inserted into a body paragraph (content.xml) and a header paragraph (styles.xml) of three documents
+                whose ASCII padding differs by one byte: a character lies across every byte offset 2^12..2^17 of both parts
+                in at least one of them (counted from the saved bytes: straddle:<part>:2^k); saved, loaded, extracted
 """
-import io, itertools
+import io, itertools, zipfile
 from common import enc_str, dec_str
+import loadcommon as L
 
 TEXTNS = u"urn:oasis:names:tc:opendocument:xmlns:text:1.0"
 ALPHA = [u' ', u'\t', u'\n', u'\r', u'a', u'<', u'&']
@@ -87,6 +92,69 @@ def gen_strings(chk):
         yield u''.join(s), 'random'
 
 
+BIG_WS_HEAD = u' \t\n  x'
+BIG_WS_TAIL = u'y  \n\t z '
+
+
+def big_string(pad, order):
+    """white space the helper has to encode, `pad` ASCII letters, ~140 KB of multi-byte characters, white space again"""
+    return BIG_WS_HEAD + L.straddle_text(pad, order) + BIG_WS_TAIL
+
+
+def run_big(teletype, pad, orders=(0, 1), at=None):
+    """one document: big_string(pad, orders[0]) in a body paragraph, big_string(pad, orders[1]) in a header paragraph of a
+    master page (styles.xml).  at = (offset of the first multi-byte character in content.xml, in styles.xml) of a recorded
+    run: the paddings are then chosen so that the characters lie at the same byte offsets mod 12 (what stands in front of
+    the text in a part depends on the history of the process).
+    -> (problems [(what, detail)], {part: [k straddled]}, at); problems empty = the property holds"""
+    from odf.opendocument import OpenDocumentText, load
+    from odf import text, style
+    def build(padb, padh):
+        sb, sh = big_string(padb, orders[0]), big_string(padh, orders[1])
+        doc = OpenDocumentText()
+        pb = text.P(); teletype.addTextToElement(pb, sb); doc.text.addElement(pb)
+        doc.automaticstyles.addElement(style.PageLayout(name=u'BigPL'))
+        mp = style.MasterPage(name=u'Big', pagelayoutname=u'BigPL'); doc.masterstyles.addElement(mp)
+        hd = style.Header(); mp.addElement(hd)
+        ph = text.P(); hd.addElement(ph); teletype.addTextToElement(ph, sh)
+        buf = io.BytesIO(); doc.save(buf)
+        z = zipfile.ZipFile(io.BytesIO(buf.getvalue()))
+        parts = dict((n, z.read(n)) for n in (u'content.xml', u'styles.xml'))
+        z.close()
+        return sb, sh, pb, ph, buf, parts
+    sb, sh, pb, ph, buf, parts = build(pad, pad)
+    padb = padh = pad
+    for _ in range(4 if at is not None else 0):      # (the first save of a process writes a shorter part header than later ones)
+        ob, oh = L.first_wide_offset(parts[u'content.xml']), L.first_wide_offset(parts[u'styles.xml'])
+        if (ob - at[0]) % 12 == 0 and (oh - at[1]) % 12 == 0:
+            break
+        padb, padh = (padb + at[0] - ob) % 12, (padh + at[1] - oh) % 12
+        sb, sh, pb, ph, buf, parts = build(padb, padh)
+    at = [L.first_wide_offset(parts[u'content.xml']), L.first_wide_offset(parts[u'styles.xml'])]
+    bad = []
+    for what, p, s in (('body', pb, sb), ('header', ph, sh)):
+        got = teletype.extractText(p)
+        if got != s:
+            bad.append(('roundtrip-direct', '%s paragraph: extractText gave %r for %r' % (what, short(got), short(s))))
+        if not clean_nodes(p.childNodes):
+            bad.append(('raw-whitespace', '%s paragraph holds raw white space' % what))
+    hit = dict((n, L.straddled_offsets(parts[n])) for n in sorted(parts))
+    try:
+        d2 = load(io.BytesIO(buf.getvalue()))
+    except Exception as e:
+        return bad + [('roundtrip-saveload', 'load() of the saved document raises %s' % short(repr(e)))], hit, at
+    for what, sec, s in (('body', d2.text, sb), ('header', d2.masterstyles, sh)):
+        ps = sec.getElementsByType(text.P)
+        if len(ps) != 1:
+            bad.append(('roundtrip-saveload', '%s: %d paragraphs after save+load, 1 before' % (what, len(ps)))); continue
+        got = teletype.extractText(ps[0])
+        if got != s:
+            k = next((i for i, (a, b) in enumerate(zip(got, s)) if a != b), min(len(got), len(s)))
+            bad.append(('roundtrip-saveload', '%s paragraph (%d characters): after save+load extractText gave %d characters, first difference at character %d (%r vs %r)'
+                        % (what, len(s), len(got), k, got[k:k + 6], s[k:k + 6])))
+    return bad, hit, at
+
+
 def run_one(teletype, P, s, prefill=None):
     p = P()
     before = u''
@@ -104,6 +172,13 @@ def run(chk, replay=None):
     from odf.opendocument import OpenDocumentText, load
     chk.rule = ('all strings of length <= %d over {SP,TAB,LF,CR,a,<,&} plus seeded random strings <= 40 over a wider alphabet; '
                 'non-trivial = distinct string containing at least one of SP/TAB/LF' % (6 if chk.tier == 'thorough' else 4))
+    if replay is not None and replay['input'].get('big'):
+        b = replay['input']['big']
+        bad, hit, at = run_big(teletype, b['pad'], tuple(b['orders']), b.get('at'))
+        print('replay: first multi-byte character at byte %r of content.xml / styles.xml; offsets 2^k inside a character: %r' % (at, hit))
+        for sig, det in bad:
+            print('replay: %s :: %s' % (sig, det))
+        return 1 if bad else 0
     if replay is not None:
         s = dec_str(replay['input']['s'])
         p, before, new = run_one(teletype, P, s, replay['input'].get('prefill') and dec_str(replay['input']['prefill']))
@@ -195,4 +270,24 @@ def run(chk, replay=None):
             got = teletype.extractText(p)
             if got != s:
                 chk.fail('roundtrip-saveload', {'s': enc_str(s), 'mode': 'saveload'}, 'after save+load extractText gave %r for %r' % (short(got), short(s)))
+    # ---- big parts: multi-byte characters across every byte offset 2^12..2^17 of content.xml and styles.xml
+    seen = {}; base = {}
+    for pad in (0, 1, 2):
+        for orders in ([(0, 1)] if chk.tier == 'quick' else [(0, 1), (1, 2), (2, 0)]):
+            # the three documents place their characters at consecutive byte offsets (whatever the part header of this save is)
+            bad, hit, at = run_big(teletype, pad, orders, None if pad == 0 else [base[orders][0] + pad, base[orders][1] + pad])
+            if pad == 0:
+                base[orders] = at
+            chk.case(('big', pad, orders), nontrivial=True)
+            chk.count('big_parts', 2)
+            for n, ks in sorted(hit.items()):
+                for k in ks:
+                    seen.setdefault(n, set()).add(k)
+                    chk.count('straddle:%s:2^%d' % (n, k))
+            for sig, det in bad:
+                chk.fail(sig, {'big': {'pad': pad, 'orders': list(orders), 'at': at}, 'mode': 'saveload-big'}, det)
+    for n in (u'content.xml', u'styles.xml'):
+        for k in L.STRADDLE_K:
+            if k not in seen.get(n, ()):
+                chk.count('straddle-not-reached:%s:2^%d' % (n, k))      # generator coverage, visible in the evidence
     return chk.finish()
